@@ -493,7 +493,8 @@ func Child(c *run.Ctx, name string) {
 	run.ChildCfg(&cfg)
 	runners := map[bool]*logq.Runner{false: logq.NewRunner(false, true), true: logq.NewRunner(true, true)}
 	shrunk := 0
-	ranges := []time.Duration{time.Second, 5 * time.Second, 10 * time.Second, 15 * time.Second, time.Minute, time.Hour}
+	ranges := []time.Duration{time.Second, 5 * time.Second, 10 * time.Second, 15 * time.Second, time.Minute, time.Hour, time.Second, 10 * time.Second, time.Minute,
+		250 * time.Millisecond, 500 * time.Millisecond, 7 * time.Second, 13 * time.Second, 7 * time.Minute} // incl. sub-second ranges and ranges that do not divide a day
 	for i := 0; i < cfg.N; i++ {
 		gi := cfg.Start + i
 		// consecutive pairs share everything but the range: the same pipeline below and above the shortcut threshold
